@@ -60,7 +60,7 @@ func genC08(t *rapid.T) CaseC08 {
 	sh := genRootShape(t, lil)
 	c := CaseC08{Map: instantiate(t, sh).(map[string]interface{})}
 	c.Key = rapid.SampledFrom(append([]string{"*", "zz"}, shapeKeys...)).Draw(t, "k")
-	c.Sep = rapid.SampledFrom([]string{":", ":", "|", "::"}).Draw(t, "sep")
+	c.Sep = rapid.SampledFrom([]string{":", ":", "|", "::", "\t", " | "}).Draw(t, "sep")
 	usePath := rapid.Bool().Draw(t, "usepath")
 	var cands []interface{}
 	if usePath {
